@@ -4,6 +4,7 @@ import (
 	"fmt"
 	"math/big"
 	"math/rand"
+	"strings"
 	"time"
 
 	sdkmath "cosmossdk.io/math"
@@ -41,6 +42,37 @@ type csEnv struct {
 	dt     int64 // seconds between the last block and the one executed next
 	nextDt int64 // the same for the block after (used by the end-of-block projection)
 	last   chain.M
+	cfg    string // effective driver configuration (logged so that replays are self-contained)
+}
+
+var cfgKeys = []struct {
+	k string
+	d int64
+}{{"users", 3}, {"tokens", 2}, {"initstd", 30}, {"inittok", 30}, {"fee", 3}, {"feenum", 3}, {"feeden", 10},
+	{"uninum", 2}, {"uniden", 10}, {"taxnum", 2}, {"taxden", 5}}
+
+func effectiveCfg(fl *drv.Flags) string {
+	var parts []string
+	for _, c := range cfgKeys {
+		parts = append(parts, fmt.Sprintf("%s=%d", c.k, fl.CfgInt(c.k, c.d)))
+	}
+	return strings.Join(parts, ",")
+}
+
+// withCfg returns flags whose driver configuration is taken from a logged
+// "Config" event (everything else, e.g. epilogue, stays as given).
+func withCfg(fl *drv.Flags, cfg string) *drv.Flags {
+	n := *fl
+	n.Cfg = map[string]string{}
+	for k, v := range fl.Cfg {
+		n.Cfg[k] = v
+	}
+	for _, kv := range strings.Split(cfg, ",") {
+		if p := strings.SplitN(kv, "=", 2); len(p) == 2 {
+			n.Cfg[p[0]] = p[1]
+		}
+	}
+	return &n
 }
 
 func newEnv(fl *drv.Flags) *csEnv {
@@ -51,6 +83,7 @@ func newEnv(fl *drv.Flags) *csEnv {
 		names:  map[string]string{},
 		off:    map[string]sdkmath.Int{},
 		dt:     1, nextDt: 1,
+		cfg: effectiveCfg(fl),
 	}
 	for i := range e.tokens {
 		e.lpts = append(e.lpts, fmt.Sprintf("lpt-%d", i+1))
@@ -355,9 +388,15 @@ func (e *csEnv) runBlock(pending []chain.M, dtNext int64, w *chain.TraceWriter) 
 	return true
 }
 
+// start writes the Init line and a "Config" pseudo event (not a message: the
+// specification rejects it without effect) that carries the driver
+// configuration, so that a behaviour cut out of this trace replays identically.
 func (e *csEnv) start(w *chain.TraceWriter) {
 	e.last = e.project(e.c.Ctx()).(chain.M)
 	w.Write(csEvent("Init", ""), e.last)
+	c := csEvent("Config", e.cfg)
+	c["ok"] = false
+	w.Write(c, e.last)
 }
 
 func dtOf(ev chain.M) int64 {
@@ -369,6 +408,9 @@ func dtOf(ev chain.M) int64 {
 
 // csRun executes one abstract behaviour on a fresh chain.
 func csRun(fl *drv.Flags, beh []chain.M, w *chain.TraceWriter, epilogue bool) {
+	if len(beh) > 0 && chain.Str(beh[0], "name") == "Config" {
+		fl = withCfg(fl, chain.Str(beh[0], "who"))
+	}
 	e := newEnv(fl)
 	e.start(w)
 	var pending []chain.M
